@@ -159,6 +159,10 @@ pub struct RunInfo {
     pub shared_seen: bool,
     pub mutated_while_shared: u64,
     pub callbacks: u64,
+    pub iter_mut_writes: u64,
+    pub entry_occupied: u64,
+    pub entry_vacant: u64,
+    pub get_mut_writes: u64,
     pub fingerprint: u64,
     pub op_prefix_hash: u64,
 }
@@ -307,6 +311,7 @@ pub fn exec(case: &Case) -> Result<RunInfo, Fail> {
                         }
                         *r = op.v;
                         *m = op.v;
+                        info.get_mut_writes += 1;
                     }
                     (None, None) => {}
                     (r, m) => {
@@ -335,6 +340,7 @@ pub fn exec(case: &Case) -> Result<RunInfo, Fail> {
                 let present = hd.model.contains_key(&op.k);
                 match hd.real.entry(op.k) {
                     Entry::Occupied(mut e) => {
+                        info.entry_occupied += 1;
                         if !present {
                             return Err(fail("return-value", "entry is Occupied, reference has no such key".into()));
                         }
@@ -367,6 +373,7 @@ pub fn exec(case: &Case) -> Result<RunInfo, Fail> {
                         }
                     }
                     Entry::Vacant(e) => {
+                        info.entry_vacant += 1;
                         if present {
                             return Err(fail("return-value", "entry is Vacant, reference has the key".into()));
                         }
@@ -409,9 +416,11 @@ pub fn exec(case: &Case) -> Result<RunInfo, Fail> {
                     if k != *mk || *v != *mv {
                         return Err(fail("content", format!("iter_mut yields ({k}, {v}), reference ({mk}, {mv})")));
                     }
-                    if merge_fn(op.v, k, 0, 0) % 2 == 0 {
+                    // (merge_fn's lowest bit is always set: decide on the next one)
+                    if (merge_fn(op.v, k, 0, 0) >> 1) % 2 == 0 {
                         *v = op.v + 8 + i as u64;
                         *mv = op.v + 8 + i as u64;
+                        info.iter_mut_writes += 1;
                     }
                     i += 1;
                 }
